@@ -5,7 +5,7 @@ package main
 //
 // V lines `tmgsubsub.read bytes=<hex> pos=<n> type=<lookup type>` run the real reader (through
 // gtab.VerifReadGsubSubtable) at position pos and print the outcome class (err:io | err:invalid |
-// err:unsupported | panic; err:foreign when the dispatcher key belongs to the context / chained
+// err:unsupported | panic; err:foreign when the (valid, type and format at most 9) dispatcher key belongs to the context / chained
 // context / extension readers, which another group models) or "ok:" and the canonical subtable:
 //   1.1;cov=<SET>;delta=<d>            SET   s-e    maximal runs of consecutive gids
 //   1.2;cov=<COV>;subs=<g,g,…>         COV   s-e:i  maximal runs in which gid and coverage index
@@ -151,6 +151,10 @@ func totalGsubsubForeign(b []byte, pos, tp int) bool {
 		return false
 	}
 	format := uint16(b[pos])<<8 | uint16(b[pos+1])
+	if uint16(tp) > 9 || format > 9 {
+		// rejected by the dispatcher guard (gsub.go:42) since the key-collision repair
+		return false
+	}
 	key := uint16(10*uint16(tp) + format)
 	switch key {
 	case 51, 52, 53, 61, 62, 63, 71:
@@ -971,7 +975,18 @@ func totalGsubsubStructured(r *Rng) []totalGsubsubTab {
 	plain("type-32773-format-1-wrap-foreign-51", 32773, cat(W(1), body))
 	plain("type-6560-format-7-wrap-foreign-71", 6560, cat(W(7), body))
 	plain("type-1-format-65527-wrap-1.1", 1, cat(W(65527), body)) // 10 + 65527 = 65537 = 1 (mod 65536): invalid
-	plain("type-2-format-65527-wrap-11", 2, cat(W(65527), body))  // 20 + 65527 = 11 (mod 65536): read as 1.1
+	plain("type-2-format-65527-wrap-11", 2, cat(W(65527), body))  // 20 + 65527 = 11 (mod 65536): read as 1.1 before the repair
+	// since the dispatcher repair (gsub.go:42: lookup type or format above 9 is rejected) every
+	// "-as-", "-wrap-" and non-valid "-foreign-" case above is err:invalid on both sides; only the
+	// valid keys of types 5, 6, 7 remain err:foreign
+	plain("type-4-format-65497-wrap-1", 4, cat(W(65497), body))
+	plain("type-65497-format-1-wrap", 65497, cat(W(1), body))
+	plain("type-5-format-0xffcf-wrap-1", 5, cat(W(0xffcf), body))
+	plain("type-0xffcf-format-1-wrap", 0xffcf, cat(W(1), body))
+	plain("type-10-format-1", 10, cat(W(1), body))
+	plain("type-1-format-10", 1, cat(W(10), body))
+	plain("type-6-format-3-foreign", 6, cat(W(3), body))
+	plain("type-7-format-2-invalid", 7, cat(W(2), body))
 	return tt
 }
 
